@@ -104,6 +104,20 @@ Proof.
 Qed.
 Print Assumptions C16_delete_cleans_partial.
 
+(* (3') DeleteManyResources (any batch: missing, existing, repeated ids) removes exactly the
+   listed resources and exactly the relationships touching one of them. *)
+Theorem C16_delete_many_cleans_partial : forall st xs,
+  wf st -> Forall good_id xs ->
+  let st' := (delete_many_resources st xs).1 in
+  (forall j, good_id j -> has st' j <-> has st j /\ j ∉ xs) /\
+  (forall k r, o_rels st' !! k = Some r <->
+               o_rels st !! k = Some r /\ r_from r ∉ xs /\ r_to r ∉ xs) /\
+  wf st'.
+Proof.
+  intros st xs Hwf Hx st'. destruct (delete_resources_char xs st Hwf Hx) as (H1 & H2 & H3). auto.
+Qed.
+Print Assumptions C16_delete_many_cleans_partial.
+
 Theorem C16_delete_relationship_exact_partial : forall st f ty t,
   wf st -> good_rel (Rel f ty t) ->
   let st' := (delete_relationship st f ty t).1 in
